@@ -100,6 +100,21 @@ Definition status_class (r : hres) : nat :=
   | HErr EOther => 500
   end.
 
+(* ------------------------------------------------------------------ what the request stream
+   hands to handler.deserialize (stream.read() to the end), as a function of Content-Length.
+   WSGI (request.py:_get_wrapped_wsgi_input): BoundedStream(wsgi.input, content_length or 0) - a
+   MISSING Content-Length means an empty body, whatever wsgi.input holds.  ASGI
+   (asgi/request.py:stream): BoundedStream(receive, content_length=self.content_length) - a
+   missing Content-Length means "until the event without more_body" (chunked / HTTP/2 uploads),
+   Content-Length: 0 means empty although events carry bytes.  In both, a declared length bounds
+   the body from above (first n bytes) and a shorter actual body is handed over as it is.
+   (The full cursor semantics of both streams is C07's; ProofsStream.v relates the two.) *)
+Definition offered_wsgi (cl : option nat) (data : list N) : list N :=
+  firstn (match cl with Some n => n | None => 0 end) data.
+
+Definition offered_asgi (cl : option nat) (chunks : list (list N)) : list N :=
+  match cl with Some n => firstn n (concat chunks) | None => concat chunks end.
+
 (* ------------------------------------------------------------------ response side *)
 
 (* resp.media = obj (setter), resp.text/data assignment, render_body(), and - outside falcon - the
